@@ -190,4 +190,57 @@ Section Items.
     intros Hd [Hw Hh]. unfold space_avail, size_map, sz_rel. cbn [width height].
     split; [destruct (width s), (width s')|destruct (height s), (height s')]; cbn [op_rel] in *; try contradiction; assumption.
   Qed.
+  (* ---- 4. GridItem::available_space_cached *)
+  Lemma rel_avail_cached ax inner inner' fp ot ot' oadj oadj' g g' :
+    sz_rel O inner inner' -> tracks_rel k ot ot' -> L oadj oadj' -> gitem_rel k g g' ->
+    pair_rel (sz_rel O) (gitem_rel k) (avail_cached ax inner fp ot oadj g) (avail_cached ax inner' fp ot' oadj' g').
+  Proof.
+    intros Hin Hot Hadj Hg. unfold avail_cached. pose proof (rel_g_cache _ _ Hg) as Hc. ic_open Hc.
+    destruct (ic_avail (g_cache g)) as [a|], (ic_avail (g_cache g')) as [a'|]; cbn [op_rel] in Hica; try contradiction.
+    - split; cbn [fst snd]; assumption.
+    - assert (Ha : sz_rel O (item_available_space ax fp ot oadj (get_ax inner (other_ax ax)) g)
+                            (item_available_space ax fp ot' oadj' (get_ax inner' (other_ax ax)) g')).
+      { apply rel_item_available_space; try assumption. apply rel_get_ax. exact Hin. }
+      split; cbn [fst snd]; [exact Ha|]. apply rel_set_ic_avail; [exact Hg|exact Ha].
+  Qed.
+
+  (* ---- 5. min / max content contribution *)
+  Lemma rel_min_content_contribution ax inner inner' g g' space space' :
+    sz_rel O inner inner' -> gitem_rel k g g' -> sz_rel O space space' ->
+    ProgRel k L (min_content_contribution ax inner g space) (min_content_contribution ax inner' g' space').
+  Proof.
+    intros Hin Hg Hsp. unfold min_content_contribution. gi_open Hg. rewrite Egn.
+    constructor; [apply rel_item_known_dimensions; assumption|exact Hin|apply rel_space_avail; [exact I|exact Hsp]|].
+    intros v v' Hv. constructor. exact Hv.
+  Qed.
+  Lemma rel_max_content_contribution ax inner inner' g g' space space' :
+    sz_rel O inner inner' -> gitem_rel k g g' -> sz_rel O space space' ->
+    ProgRel k L (max_content_contribution ax inner g space) (max_content_contribution ax inner' g' space').
+  Proof.
+    intros Hin Hg Hsp. unfold max_content_contribution. gi_open Hg. rewrite Egn.
+    constructor; [apply rel_item_known_dimensions; assumption|exact Hin|apply rel_space_avail; [exact I|exact Hsp]|].
+    intros v v' Hv. constructor. exact Hv.
+  Qed.
+  Lemma rel_min_content_contribution_cached ax inner inner' g g' space space' :
+    sz_rel O inner inner' -> gitem_rel k g g' -> sz_rel O space space' ->
+    ProgRel k VI (min_content_contribution_cached ax inner g space) (min_content_contribution_cached ax inner' g' space').
+  Proof.
+    intros Hin Hg Hsp. unfold min_content_contribution_cached. pose proof (rel_g_cache _ _ Hg) as Hc. ic_open Hc.
+    pose proof (rel_get_ax _ _ _ ax Hicmin) as Hv.
+    destruct (get_ax (ic_min (g_cache g)) ax) as [v|], (get_ax (ic_min (g_cache g')) ax) as [v'|]; cbn [op_rel] in Hv; try contradiction.
+    - constructor. split; cbn [fst snd]; assumption.
+    - eapply pbind_rel; [apply rel_min_content_contribution; eassumption|]. intros v v' Hvv. constructor.
+      split; cbn [fst snd]; [exact Hvv|apply rel_set_ic_min; [exact Hg|exact Hvv]].
+  Qed.
+  Lemma rel_max_content_contribution_cached ax inner inner' g g' space space' :
+    sz_rel O inner inner' -> gitem_rel k g g' -> sz_rel O space space' ->
+    ProgRel k VI (max_content_contribution_cached ax inner g space) (max_content_contribution_cached ax inner' g' space').
+  Proof.
+    intros Hin Hg Hsp. unfold max_content_contribution_cached. pose proof (rel_g_cache _ _ Hg) as Hc. ic_open Hc.
+    pose proof (rel_get_ax _ _ _ ax Hicmax) as Hv.
+    destruct (get_ax (ic_max (g_cache g)) ax) as [v|], (get_ax (ic_max (g_cache g')) ax) as [v'|]; cbn [op_rel] in Hv; try contradiction.
+    - constructor. split; cbn [fst snd]; assumption.
+    - eapply pbind_rel; [apply rel_max_content_contribution; eassumption|]. intros v v' Hvv. constructor.
+      split; cbn [fst snd]; [exact Hvv|apply rel_set_ic_max; [exact Hg|exact Hvv]].
+  Qed.
 End Items.
